@@ -20,6 +20,7 @@ type c03Env struct {
 	Clock    int64  `json:"clock_start"`
 	Pool     int    `json:"pool"`
 	Seed     uint64 `json:"seed"`
+	Addr     int    `json:"addr_reuse_pct,omitempty"` // S8: chance that a new object takes a dead object's address (<0 never)
 }
 
 type c03Sc struct {
@@ -184,7 +185,7 @@ func genC03Program(r *R, ex map[string]bool) *Program {
 func (propC03) Gen(seed uint64, ex map[string]bool) interface{} {
 	r := newR(seed)
 	sc := &c03Sc{Prog: genC03Program(r, ex)}
-	base := c03Env{Dim: "baseline", MapOrder: simrt.OrderSorted, Clock: 1_700_000_000e9, Pool: simrt.PoolLIFO, Seed: simrt.Mix(seed, 9)}
+	base := c03Env{Dim: "baseline", MapOrder: simrt.OrderSorted, Clock: 1_700_000_000e9, Pool: simrt.PoolLIFO, Seed: simrt.Mix(seed, 9), Addr: -1}
 	sc.Envs = append(sc.Envs, base)
 	add := func(dim string, f func(e *c03Env)) {
 		e := base
@@ -193,7 +194,8 @@ func (propC03) Gen(seed uint64, ex map[string]bool) interface{} {
 		f(&e)
 		sc.Envs = append(sc.Envs, e)
 	}
-	add("memory-addresses", func(e *c03Env) {}) // same environment, freshly allocated context and engine
+	add("memory-addresses", func(e *c03Env) { e.Addr = 100 }) // same environment, freshly allocated context and engine, eager address reuse
+	add("memory-addresses", func(e *c03Env) { e.Addr = 50 })
 	add("map-order", func(e *c03Env) { e.MapOrder = simrt.OrderReverse })
 	add("map-order", func(e *c03Env) { e.MapOrder = simrt.OrderRotate; e.Rot = 1 })
 	add("map-order", func(e *c03Env) { e.MapOrder = simrt.OrderSwap; e.Rot = r.N(4) })
@@ -217,7 +219,7 @@ func (propC03) Gen(seed uint64, ex map[string]bool) interface{} {
 }
 
 func c03Render(p *Program, env c03Env) (Obs, *simrt.World) {
-	w := simrt.Begin(simrt.Config{Seed: env.Seed, PoolPolicy: env.Pool, MapOrder: env.MapOrder, MapRot: env.Rot, ClockStart: env.Clock, ClockStep: 1e6})
+	w := simrt.Begin(simrt.Config{Seed: env.Seed, PoolPolicy: env.Pool, MapOrder: env.MapOrder, MapRot: env.Rot, ClockStart: env.Clock, ClockStep: 1e6, AddrReusePct: env.Addr})
 	defer simrt.End()
 	twig.SetDebugWriter(io.Discard)
 	saved := twig.VerifSwapGlobals(nil)
